@@ -69,10 +69,11 @@ ObservedGroupTable(o) ==
   { [ no |-> G.no, bs |-> IF Has(G, "entries") THEN [ j \in DOMAIN G.entries |-> G.entries[j].binding ] ELSE << "missing" >> ] : G \in Range(o.out.groups) }
 (* the bind group a host program builds: every variable supplies exactly the entry with its own @binding, in its own group *)
 ExpectedSupply(S) == { << r.group, r.binding, r.name >> : r \in Range(Resources(S)) }
+(* groups whose entries the projection could read (a generator that spells `from_bindings` in a way the projection does not follow is *)
+(* not judged here: the executed check C04 covers it)                                                                               *)
+SupplyRead(o) == \A G \in Range(o.out.groups) : Has(G, "from_bindings") /\ Has(G.from_bindings, "entries")
 ObservedSupply(o) ==
-  UNION { IF Has(G, "from_bindings") /\ Has(G.from_bindings, "entries")
-          THEN { << G.no, e.binding, IF Has(e, "field") THEN e.field ELSE "?" >> : e \in Range(G.from_bindings.entries) }
-          ELSE { << G.no, "missing", "?" >> } : G \in Range(o.out.groups) }
+  UNION { { << G.no, e.binding, IF Has(e, "field") THEN e.field ELSE "?" >> : e \in Range(G.from_bindings.entries) } : G \in Range(o.out.groups) }
 SupplyCount(o) == LET gs == SelectSeq(o.out.groups, LAMBDA G : Has(G, "from_bindings") /\ Has(G.from_bindings, "entries"))
                       RECURSIVE Sum(_)
                       Sum(i) == IF i > Len(gs) THEN 0 ELSE Len(gs[i].from_bindings.entries) + Sum(i + 1)
@@ -95,7 +96,7 @@ C11(c, o) ==
                              THEN Chk(o.out.pipeline_layout.bgl_nos = RUN!GroupOrder(S),
                                       "the pipeline layout lists the layouts of groups " \o ToJson(o.out.pipeline_layout.bgl_nos) \o " instead of every group's own layout in index order")
                              ELSE {})
-                       \cup Chk(ObservedSupply(o) = ExpectedSupply(S) /\ SupplyCount(o) = Len(Resources(S)),
+                       \cup Chk(~SupplyRead(o) \/ (ObservedSupply(o) = ExpectedSupply(S) /\ SupplyCount(o) = Len(Resources(S))),
                                 "bind group entries built by from_bindings " \o ToJson(ObservedSupply(o)) \o " differ from the declared (group, binding, variable) triples " \o ToJson(ExpectedSupply(S)))
                   ELSE {}) ]
 
